@@ -1,10 +1,72 @@
 import TwigModel.Proto
+import TwigModel.Conc
 open Lean
 namespace Twig.Ops
+open Twig.Conc Twig.Conc.Sem
 
-/-- driver ops of the Conc area (see the module TwigModel.Conc); `none` = not one of ours -/
+private def lookupNat (tbl : List (Nat × Nat)) (n : Nat) : Option Nat :=
+  (tbl.find? (·.1 == n)).map (·.2)
+
+private def natPairs (a : Array Json) : Except String (List (Nat × Nat)) :=
+  a.toList.mapM fun x => do
+    let p ← x.getArr?
+    match p.toList with
+    | [n, s] => pure (← n.getNat?, ← s.getNat?)
+    | _ => throw "expected [name, src]"
+
+private def semCall (j : Json) : Except String Call := do
+  let k ← Proto.getStr j "k"
+  let n ← Proto.getNat j "n"
+  match k with
+  | "load" => pure (loadCall n)
+  | "render" => pure (renderCall n)
+  | "renderRel" => pure (renderRelCall n (← Proto.getNat j "r"))
+  | "register" => pure (.register n (← Proto.getNat j "src"))
+  | _ => throw s!"unknown call kind {k}"
+
+private def optNat : Option Nat → Json
+  | some n => Json.num n
+  | none => Json.null
+
+/-- driver ops of the Conc area.
+
+  `conc_sem` — run the semantic model of TwigModel.Conc on one case:
+    in : {"cacheOn": bool, "recheck": bool, "relFromEngine": bool, "loader": [[name, src], …],
+          "calls": [{"k": "load"|"render"|"renderRel"|"register", "n": name, "r": ref, "src": src}, …],
+          "sched": [thread index, …]}        (names, sources: numbers; `join base ref = base + ref`)
+    out: {"results": [src | null, …]   value returned by each call (0 = not found; for load/render the
+                                        source number of the template it got), null = not returned yet
+          "cache":   [[name, src, registered], …] for every name mentioned
+          "rel":     [[thread, ref, resolved], …]
+          "linearizable": bool,
+          "serial":  [[call, value], …] the calls executed one after another in index order}
+-/
 def concOps (op : String) (j : Json) : Option (Except String Json) :=
   match op with
+  | "conc_sem" => some do
+      let cacheOn ← Proto.getBool j "cacheOn"
+      let recheck := (Proto.getBool j "recheck").toOption.getD false
+      let relE := (Proto.getBool j "relFromEngine").toOption.getD false
+      let loader ← natPairs (← Proto.getArr j "loader")
+      let callsJ ← Proto.getArr j "calls"
+      let calls ← callsJ.toList.mapM semCall
+      let schedJ ← Proto.getArr j "sched"
+      let sched ← schedJ.toList.mapM fun x => x.getNat?
+      if calls.length > 6 then throw "at most 6 calls (linearizability enumerates the orders)"
+      let cfg : Cfg := { loader := lookupNat loader, cacheOn := cacheOn, join := fun b r => b + r,
+                         relFromEngine := relE, recheck := recheck }
+      let c0 : Cache := fun _ => none
+      let st := Sem.exec cfg c0 calls sched
+      let names := (loader.map (·.1) ++ regNames calls).eraseDups
+      let cache := names.filterMap fun n => (st.cache n).map fun t =>
+        Json.arr #[Json.num n, Json.num t.src, Json.bool t.reg]
+      pure (Proto.ok [
+        ("results", Json.arr ((results st calls.length).map optNat).toArray),
+        ("cache", Json.arr cache.toArray),
+        ("rel", Json.arr (st.rel.reverse.map fun (i, r, n) => Json.arr #[Json.num i, Json.num r, Json.num n]).toArray),
+        ("linearizable", Json.bool (linearizableB cfg c0 calls sched)),
+        ("serial", Json.arr ((serialRun cfg calls c0 (List.range calls.length)).map
+            fun (i, o) => Json.arr #[Json.num i, Json.num o]).toArray)])
   | _ => none
 
 end Twig.Ops
